@@ -11,6 +11,7 @@ const KEEPS: [usize; 7] = [0, 1, 2, 3, 10, 65535, 1 << 20];
 
 fn run_one(keep: usize, seq: &[usize]) -> (Vec<(String, String)>, u64, u64) {
     let mut w = World::new(keep, 0);
+    w.sets = sets();
     let mut viol = Vec::new();
     let mut changes = 0u32;
     let mut cur: Option<usize> = None;
@@ -68,6 +69,25 @@ fn run_one(keep: usize, seq: &[usize]) -> (Vec<(String, String)>, u64, u64) {
     (viol, max_retained, steps)
 }
 
+/// Data sets whose pairwise differences are a single payload type each:
+/// 0 -> 1 changes only a router key, 0 -> 2 only an ASPA, 1 -> 2 both,
+/// 0 -> 3 only an origin.
+pub fn sets() -> Vec<crate::data::DataSet> {
+    use crate::data;
+    let o = data::origin_universe();
+    let k = data::key_universe();
+    let mut s0 = data::DataSet::default();
+    s0.origins.insert(o[0]);
+    let mut s1 = s0.clone();
+    s1.keys.insert(k[0].clone());
+    let mut s2 = s0.clone();
+    let a = data::aspa(64496, &[64497]);
+    s2.aspas.insert(a.customer, a.providers.clone());
+    let mut s3 = s0.clone();
+    s3.origins.insert(o[1]);
+    vec![s0, s1, s2, s3]
+}
+
 fn all_seqs(n: usize, len: usize) -> Vec<Vec<usize>> {
     let mut res = vec![vec![]];
     for _ in 0..len {
@@ -86,15 +106,16 @@ pub fn run(ctx: &Ctx) -> Report {
     util::quiet_panics();
     let mut rep = Report::new("model_checking");
     let len = if ctx.tier.thorough() { 9 } else { 7 };
-    let seqs = all_seqs(3, len);
-    rep.rule = "every sequence of validation results over 3 data sets \
-        (repeat = unchanged run; A,B,A = change back) x history-size in \
+    let seqs = all_seqs(4, len);
+    rep.rule = "every sequence of validation results over 4 data sets that \
+        differ pairwise in a single payload type (router key only, ASPA \
+        only, origin only; repeat = unchanged run; A,B,A = change back) x history-size in \
         {0,1,2,3,10,65535,2^20}; after every run: serial == number of \
         changing runs, update() flag, retained change sets <= \
         max(history-size,1) (cfg accessor and public count of served old \
         serials); non-trivial = histories with more changes than \
         max(history-size,1)".into();
-    rep.bound = format!("all 3^{len} histories, every prefix checked");
+    rep.bound = format!("all 4^{len} histories, every prefix checked");
     let n = (KEEPS.len() * seqs.len()) as u64;
     let res = util::par_map(n, util::cores(), |i| {
         let keep = KEEPS[i as usize / seqs.len()];
